@@ -30,6 +30,9 @@ def step (d : DSt) (toks : List String) : DSt × String :=
   | ["cfg", al] => ({ allowed := capsOf al, st := {} }, "ok")
   | ["reg", n, body, req, caps, r] =>
     ({ d with st := { d.st with reg := d.st.reg.set n ⟨natD body, capsOf req, capsOf caps, boolOf r⟩ } }, "ok")
+  | ["reg", n, body, req, caps, r, _style] =>      -- style of the Python tool object: irrelevant to the model
+    ({ d with st := { d.st with reg := d.st.reg.set n ⟨natD body, capsOf req, capsOf caps, boolOf r⟩ } }, "ok")
+  | ["schemas"] => (d, "ok")                       -- export_tool_schemas / list_tools: must not change anything
   | ["met", mode, callee, a, recorded] =>
     let p : Pre := match mode with
       | "long" => .tooLong | "ros" => .rosLatched | "forced-oxid" => .oxidative | "forced-other" => .otherPathway
@@ -41,6 +44,7 @@ def step (d : DSt) (toks : List String) : DSt × String :=
   | ["call", n] =>
     let (s', r) := executeToolCall g d.allowed d.st n
     ({ d with st := s' }, s!"{showRes r} {showLog s'}")
+  | ["loop", k, auto, _idmode, rounds] => step d ["loop", k, auto, rounds]
   | ["loop", k, auto, rounds] =>
     let rs : List (List String) := if rounds = "." then [] else
       (rounds.splitOn ";").map fun r => if r = "-" then [] else r.splitOn ","
